@@ -13,9 +13,11 @@ var strPool = []string{
 	"¬", "¬¬", "a¬b", "aʞb", "ʞ", "{\"k\": 1}", "{\"a\":\"¬\"}", "{\"k\":\n1}", "{\"", "{\"}", "}", "{",
 	"$x", ";; $x 1", "; c", "(", ")", "[", "]", "#{", "~@", "'", "`", "^", "@", "«", "»", "é", "日本", "😀",
 	"nil", "true", "0", "-1", ":k", " ", "  a ", "\r\n", "a\\", "\\\"", "\"\"",
+	// text that means something to fmt, regexp, strconv or a template engine
+	"%", "%d", "50% done", "100%", "%%", "%s %v", "%!d(MISSING)", "\\u00e9", "\\x41", "\\t", "\x01", "\x7f", "\u00a0", "$1", "${x}", ".*", "\\d+", "a|b",
 }
 
-var keyPool = []string{"a", "b", "c", "k", "key", "x y", "", "A", "ʞa", "ʞb", "ʞc", "ʞk", "ʞkey", "ʞx-y", "1"}
+var keyPool = []string{"a", "b", "c", "k", "key", "x y", "", "A", "ʞa", "ʞb", "ʞc", "ʞk", "ʞkey", "ʞx-y", "1", "%d", "a\tb", "ʞ%s"}
 
 var symPool = []string{"$x", "$NUMBER", "$b", "a", "b", "x", "y", "foo", "bar-baz", "+", "-", "*", "/", "<=", "a1", "nil?", "swap!", "->", "x*", "é", "_", "λ"}
 
